@@ -285,6 +285,8 @@ class EvalMixin:
             if env['old'] is None: raise Unsupported('wasalloc() without a pre-state')
             if isinstance(v, SliceV): v = v.arr
             return (And(v > 0, v <= env['old']['st'].alloc), 'bool')
+        if name == 'allocbound':
+            return (st.alloc, 'int')
         if name == 'allocated':
             v, t = self.ev(args[0], env)
             if isinstance(v, SliceV): v = v.arr
